@@ -23,6 +23,7 @@ Theorem C09_wrkchain_primitive_bodies_as_reviewed :
    ("GetRecordFeeAsCoin", "12381be07e186e84");
    ("GetRegistrationFeeAsCoin", "077a30b7bd90d777");
    ("GetWrkChain", "7f5a4824f26f81b9");
+   ("GetWrkChainBlock", "7b2bfc951eb25e87");
    ("GetWrkChainOwner", "9b7eae50aad15f7f");
    ("GetWrkChainStorageLimit", "22a7132a7e1bf2d6");
    ("GetZeroFeeAsCoin", "490a8edf1c700cf0");
@@ -49,6 +50,7 @@ Theorem C09_beacon_primitive_bodies_as_reviewed :
    ("GetBeacon", "ffc24cb9b2c2eb6f");
    ("GetBeaconOwner", "ad9f6a16014219f9");
    ("GetBeaconStorageLimit", "ac78ecddd75c9fd7");
+   ("GetBeaconTimestampByID", "929f1fe7d9fc7cb2");
    ("GetHighestBeaconID", "5e0b9a7111190145");
    ("GetParamDefaultStorageLimit", "40d21abf76583945");
    ("GetParamDenom", "c4773798fc1cc0de");
